@@ -93,6 +93,15 @@ pub enum Cmd {
         commands: bool,
     },
     Panics,
+    /// arm the LD_PRELOAD crash shim: kill at the `at`-th store-directory event from now
+    CrashArm {
+        at: i64,
+        before: bool,
+        power: bool,
+        torn_q: u8,
+    },
+    /// number of store-directory events the shim has seen (null without the shim)
+    CrashCount,
     /// persistent schedule rules: (sync-point label, delay in us) for every occurrence
     SetDelays {
         delays: Vec<(String, u64)>,
@@ -446,6 +455,29 @@ impl Executor {
                 ok(json!(null))
             }
             Cmd::Panics => ok(json!(PANICS.lock().unwrap().clone())),
+            Cmd::CrashArm {
+                at,
+                before,
+                power,
+                torn_q,
+            } => unsafe {
+                let sym = libc::dlsym(libc::RTLD_DEFAULT, c"xsv_arm".as_ptr());
+                if sym.is_null() {
+                    return err("crash shim not loaded");
+                }
+                let f: extern "C" fn(libc::c_long, libc::c_int, libc::c_int, libc::c_int) =
+                    std::mem::transmute(sym);
+                f(at as libc::c_long, before as i32, power as i32, torn_q as i32);
+                ok(json!(null))
+            },
+            Cmd::CrashCount => unsafe {
+                let sym = libc::dlsym(libc::RTLD_DEFAULT, c"xsv_count".as_ptr());
+                if sym.is_null() {
+                    return ok(json!(null));
+                }
+                let f: extern "C" fn() -> libc::c_long = std::mem::transmute(sym);
+                ok(json!(f() as i64))
+            },
             Cmd::SetDelays { delays } => {
                 crate::director::set_delays(delays);
                 ok(json!(null))
